@@ -9,6 +9,8 @@ func main() {
 		Groups:     []string{"ser", "con"},
 		Oracles:    txpipe.Oracles{Serializable: true},
 		QuickBound: 1, ThoroughBound: 2,
+		SyncLen: -2, SyncLenThorough: 2,
+
 		Rule: "Oracle: the committed update transactions that wrote something are replayed serially, in commit order, on a reference model (ordered maps); every lookup result, every row of every scan incl. where it stopped, and every error class must equal what the real transaction observed, every published state must be a prefix of that serial history and the final database must equal the model (no lost update, no phantom).",
 	})
 }
